@@ -62,14 +62,14 @@ def system(name):
     return _SYS[name]
 
 
-def reftraj(cls, sysname, f0, kmax):
+def reftraj(cls, sysname, f0, kmax, cfl=CFL):
     model, m, disc, _ = system(sysname)
     s = cls(m, disc)
     Q, dts = [f0.copy()], []
     for _ in range(kmax):
         f = Q[-1].copy()
         with np.errstate(all="ignore"):
-            dt = float(min(disc.calc_timestep(f, CFL)))
+            dt = float(min(disc.calc_timestep(f, cfl)))
             s.step(f, dt)
         Q.append(f)
         dts.append(dt)
@@ -101,7 +101,7 @@ def stop_count(Q, crit, k0=0):
     return out
 
 
-def judge_run(cls, sysname, t0, f0, S, stop, op, solver, res, traj=None, it0=0):
+def judge_run(cls, sysname, t0, f0, S, stop, op, solver, res, traj=None, it0=0, cfl=CFL, as_array=False):
     """run one solve/restart and evaluate the property; returns (violations, returned list)"""
     name = cls.__name__
     gear = space.is_multistep(cls)
@@ -119,7 +119,7 @@ def judge_run(cls, sysname, t0, f0, S, stop, op, solver, res, traj=None, it0=0):
     before = ([d.copy() for d in fcall.data], fcall.time, fcall.it)
     try:
         with np.errstate(all="ignore"), core.time_limit(HORIZON):
-            out = getattr(solver, op)(fcall, CFL, list(S), stop=stop)
+            out = getattr(solver, op)(fcall, cfl, np.array(S, float) if as_array else list(S), stop=stop)
     except core.CallTimeout as e:
         return [("non-termination", "%s did not return within its horizon (a problem of at most 5 iterations): the stop criteria were never met" % op)], None
     except Exception as e:      # the driver must not raise on a valid request
@@ -208,14 +208,14 @@ def judge_run(cls, sysname, t0, f0, S, stop, op, solver, res, traj=None, it0=0):
     return bad, snaps
 
 
-def letters_of(sysname, t0, ticks):
+def letters_of(sysname, t0, ticks, cfl=CFL):
     """save times: conv8 has dt = 1/2 exactly, ticks are absolute offsets; otherwise in units of twice the first step"""
     model, m, disc, q0 = system(sysname)
-    if sysname == "conv8":
+    if sysname == "conv8" and cfl == 0.5:
         unit = 1.0
     else:
         f = space.field.fdata(model, m, [d.copy() for d in q0], t=t0)
-        unit = 2.0 * float(min(disc.calc_timestep(f, CFL)))
+        unit = 2.0 * float(min(disc.calc_timestep(f, cfl)))
     off = 0.0 if t0 == 0.0 else t0 - 0.25 * unit      # for a later start the first letter lies before the start
     return [off + x * unit for x in ticks], unit
 
@@ -245,13 +245,15 @@ def history_site(name, rule, S, t0, Q, dts):
 
 
 def shard_solve(arg):
-    iname, sysname, t0, tier = arg
+    iname, sysname, t0, tier = arg[:4]
+    cfl = arg[4] if len(arg) > 4 else CFL
+    as_array = arg[5] if len(arg) > 5 else False
     res = core.Res()
     cls = space.integrators()[iname]
     model, m, disc, q0 = system(sysname)
     f0 = space.field.fdata(model, m, [d.copy() for d in q0], t=t0)
-    traj = reftraj(cls, sysname, f0, 14)
-    vals, unit = letters_of(sysname, t0, TICKS)
+    traj = reftraj(cls, sysname, f0, 14, cfl)
+    vals, unit = letters_of(sysname, t0, TICKS, cfl)
     stops = stops_of(vals, unit, t0)
     for combo in enum_lists(tier):
         S = [vals[i] for i in combo]
@@ -263,14 +265,14 @@ def shard_solve(arg):
             if inside:
                 res.nontrivial += 1
             solver = cls(m, disc)
-            bad, snaps = judge_run(cls, sysname, t0, f0, S, stop, "solve", solver, res, traj)
+            bad, snaps = judge_run(cls, sysname, t0, f0, S, stop, "solve", solver, res, traj, cfl=cfl, as_array=as_array)
             key = (iname, sysname, t0, tuple(combo), si)
             if snaps is not None:
                 res.states.add(hash((key[0], key[1], tuple((g.time, g.it, tuple(d.tobytes() for d in g.data)) for g in snaps), solver.nit())))
                 res.census["outcome/%d-snapshots" % len(snaps)] += 1
             for rule, what in bad:
                 res.violation("C07/%s/%s" % (iname, rule), "%s on %s t0=%r save=%r stop=%r: %s" % (iname, sysname, t0, S, stop, what),
-                              {"kind": "solve", "integrator": iname, "system": sysname, "t0": t0, "ticks": list(combo), "stop_index": si})
+                              {"kind": "solve", "integrator": iname, "system": sysname, "t0": t0, "ticks": list(combo), "stop_index": si, "cfl": cfl, "as_array": as_array})
             if res.nviol["C07/%s/non-termination" % iname] >= MAX_TIMEOUTS:
                 res.census["shard-abandoned-after-non-terminating-calls"] += 1
                 return res
@@ -399,6 +401,9 @@ def run(ctx):
     systems = ["conv8", "burgers4", "euler4"]
     ctx.pmap("step-time-advance", shard_step, names)
     cfg = [(i, s, t0, ctx.tier) for i in names for s in systems for t0 in (0.0, 0.75)]
+    if ctx.thorough:
+        # another CFL number (steps not exactly representable), save times handed over as a numpy array instead of a list
+        cfg += [(i, s, t0, "quick", 0.3, True) for i in names for s in systems for t0 in (0.0, 0.75)]
     # implicit classes are ~20x slower: put them first so that the pool balances
     cfg.sort(key=lambda c: (not space.is_implicit(space.integrators()[c[0]]), c))
     ctx.pmap("solve-histories", shard_solve, cfg)
@@ -417,12 +422,13 @@ def replay(case):
     model, m, disc, q0 = system(sysname)
     if k == "solve":
         t0 = case["t0"]
+        cfl = case.get("cfl", CFL)
         f0 = space.field.fdata(model, m, [d.copy() for d in q0], t=t0)
-        traj = reftraj(cls, sysname, f0, 14)
-        vals, unit = letters_of(sysname, t0, TICKS)
+        traj = reftraj(cls, sysname, f0, 14, cfl)
+        vals, unit = letters_of(sysname, t0, TICKS, cfl)
         S = [vals[i] for i in case["ticks"]]
         stop = stops_of(vals, unit, t0)[case["stop_index"]]
-        bad, _ = judge_run(cls, sysname, t0, f0, S, stop, "solve", cls(m, disc), None, traj)
+        bad, _ = judge_run(cls, sysname, t0, f0, S, stop, "solve", cls(m, disc), None, traj, cfl=cfl, as_array=case.get("as_array", False))
         return [("C07/%s/%s" % (iname, r), w) for r, w in bad]
     # restart: re-run the shard restricted to this case
     r = shard_restart((iname, sysname, "quick"))
